@@ -66,6 +66,26 @@ def values() -> dict[str, dict[str, tuple[Any, Any, Any]]]:
     }
 
 
+class _Str(str):
+    """A str subclass (what a config library or a translation layer may hand over)."""
+
+
+def alt_form(v: Any) -> Any:
+    import enum
+
+    if isinstance(v, enum.Enum):
+        return int(v.value)
+    if isinstance(v, bool):
+        return 1 if v else 0
+    if isinstance(v, float):
+        return int(v) if v == int(v) else v
+    if isinstance(v, tuple):
+        return list(v)
+    if isinstance(v, str):
+        return _Str(v)
+    return v
+
+
 REQUIRED = {
     "lock_command": lambda m: [("command", m.LockCommand.UNLOCK), ("command", m.LockCommand.LOCK), ("command", m.LockCommand.OPEN)],
     "alarm_control_panel_command": lambda m: [("command", m.AlarmControlPanelCommand.DISARM), ("command", m.AlarmControlPanelCommand.TRIGGER)],
@@ -237,11 +257,15 @@ def run_commands(ctx: Ctx, apiv: tuple[int, int], methods: list[str], framing: s
             reqs = REQUIRED[method](m) if method in REQUIRED else [None]
             for r in range(len(names) + 1):
                 for subset in itertools.combinations(names, r):
-                    for vc in range(3):
+                    for vc in range(4):
                         idx += 1
                         if idx % stride or not ctx.mine(idx // stride):
                             continue
-                        supplied = {a: opt[a][vc] for a in subset}
+                        if vc == 3 and (not subset or idx % 2):
+                            continue
+                        # vc 3: the typical value in another legal Python form (an int for an integral float, a list for a tuple, a str subclass,
+                        # the plain int of an enum member, 1 for True)
+                        supplied = {a: (opt[a][vc] if vc < 3 else alt_form(opt[a][1 if a != "color_temperature" else 1])) for a in subset}
                         rq = reqs[idx % len(reqs)]
                         required = {rq[0]: rq[1]} if rq else {}
                         key = (idx * 2654435761) & 0xFFFFFFFF if idx % 5 == 0 else idx % 251
@@ -264,7 +288,7 @@ def run_commands(ctx: Ctx, apiv: tuple[int, int], methods: list[str], framing: s
                                           ", ".join(f"{k}={v!r:.30}" for k, v in {**required, **supplied}.items())) + f") on a live session raised {e!r}",
                                           {"method": method, "supplied": {k: repr(v) for k, v in supplied.items()}, "positional": pos is not None, "api_version": list(apiv)})
                             continue
-                        judge(ctx, s, n0, method, exp, supplied, required, ("falsy", "typical", "extreme")[vc] + ("/positional" if pos is not None else ""), apiv, framing)
+                        judge(ctx, s, n0, method, exp, supplied, required, ("falsy", "typical", "extreme", "typical-in-another-python-form")[vc] + ("/positional" if pos is not None else ""), apiv, framing)
         if sim.harness_errors:
             res.inconclusive.append("harness: " + sim.harness_errors[0][-300:])
 
